@@ -153,8 +153,8 @@ class StoreRunner:
     def _kw(self):
         return {} if self.cache_mb is None else {'cache_size_mb': self.cache_mb}
 
-    def prepare(self, start: int):
-        self.extras = start == 3  # StoreGen.tla Flavour
+    def prepare(self, start: int, flavour: str | None = None):
+        self.extras = (flavour == 'extras') if flavour is not None else start == 3  # StoreGen.tla Flavour
         if start == 0:
             return
         ids = (3, 1) if start == 2 else (0, 0)
@@ -204,6 +204,8 @@ class StoreRunner:
                 elif arg == 'missing_required_other':
                     # the required scalar of the second field set where the store has one, else another base value
                     t = make_payload(9, 99 if has_ids else 0, self.big, missing='vm' if self.extras else 'total_fuel_mass', extras=self.extras)
+                elif arg == 'missing_required_foreign':
+                    t = make_payload(9, 99 if has_ids else 0, self.big, missing='starting_mass', extras=not self.extras)
                 elif arg == 'fieldset_mismatch':
                     t = make_payload(9, 99 if has_ids else 0, self.big, extras=not self.extras)
                 elif arg == 'fieldset_redefined':
@@ -260,7 +262,7 @@ def run_behaviour(beh: dict, big=False, cache_mb=None, skip_bad=False):
     r = StoreRunner(big=big, cache_mb=cache_mb)
     universe_ids = sorted({it['id'] for it in beh['added'] if it['id']} | {1, 2, 3, 7})
     try:
-        r.prepare(beh['start'])
+        r.prepare(beh['start'], beh.get('flavour'))
         has_bad = False
         spec_items = None
         ids_in_play = False
